@@ -458,20 +458,26 @@ def cbCheck (m : MState) (k : Kind) (ds : List SDelivery) : Option Clause :=
   let dup := Slot.all.any (fun i => (ds.filter (·.slot == i)).length > 1)
   first (ds.map (cbDeliveryClause m k) ++ [if dup then some .twice else none])
 
-/-- bookkeeping of a complete fan-out: a recipient's debt of kind k is discharged (the notification was
-sent after the change that created it) and it handled the notification; a session that is not entitled
-at this snapshot is owed nothing; an entitled session that was skipped stays in debt — `end` reports it
-unless a later callback reaches it -/
+/-- a session received the list-changed notification of kind `k`: its debt of that kind is discharged (the
+notification was sent after the change that created it) and its client handled the notification -/
+def gotChanged (m : MState) (k : Kind) (d : MSlot) : MSlot :=
+  ({ d with owed := d.owed.filter (· != k), skipped := d.skipped.filter (· != k),
+            skippedAck := d.skippedAck.filter (· != k), midFan := d.midFan.filter (· != k) }).handled m (keysOfKind k)
+
+/-- an entitled session in debt was not reached by a callback -/
+def skippedBy (k : Kind) (d : MSlot) : MSlot :=
+  { d with skipped := addNew d.skipped k,
+           skippedAck := if d.modern && d.windowK k && !d.skippedAck.contains k
+                         then d.skippedAck ++ [k] else d.skippedAck }
+
+/-- bookkeeping of a complete fan-out: a recipient's debt of kind k is discharged; a session that is not
+entitled at this snapshot is owed nothing; an entitled session that was skipped stays in debt — `end`
+reports it unless a later callback reaches it -/
 def cbNext (m : MState) (k : Kind) (ds : List SDelivery) : MState :=
   { m with slots := fun i =>
       let d := m.slots i
-      if ds.any (·.slot == i) then
-        ({ d with owed := d.owed.filter (· != k), skipped := d.skipped.filter (· != k),
-                  skippedAck := d.skippedAck.filter (· != k), midFan := d.midFan.filter (· != k) }).handled m (keysOfKind k)
-      else if d.owed.contains k && entitledNow d k then
-        { d with skipped := addNew d.skipped k,
-                 skippedAck := if d.modern && d.windowK k && !d.skippedAck.contains k
-                               then d.skippedAck ++ [k] else d.skippedAck }
+      if ds.any (·.slot == i) then gotChanged m k d
+      else if d.owed.contains k && entitledNow d k then skippedBy k d
       else { d with owed := d.owed.filter (· != k) } }
 
 /-- `cbrun k step`: the snapshot is taken now: who is entitled now is to be written to, under a stamp
@@ -492,10 +498,7 @@ def cbStepNext (m : MState) (k : Kind) (done : Bool) : MState :=
     -- nothing to write: every entitled session in debt was skipped
     { m with slots := fun i =>
         let d := m.slots i
-        if expect.any (·.1 == i) && d.owed.contains k then
-          { d with skipped := addNew d.skipped k,
-                   skippedAck := if d.modern && d.windowK k && !d.skippedAck.contains k then d.skippedAck ++ [k] else d.skippedAck }
-        else d }
+        if expect.any (·.1 == i) && d.owed.contains k then skippedBy k d else d }
   else { m with fans := fun k' => if k' = k then some { expect := expect } else m.fans k' }
 
 /-- the clause a write of a held fan-out raises -/
@@ -525,10 +528,7 @@ depend on the change arming a timer of its own: `change_during_fanout_announced`
 def fsNext (m : MState) (k : Kind) (fan : MFan) (ds : List SDelivery) (done : Bool) : MState :=
   let m : MState := { m with slots := (fun i =>
       let d := m.slots i
-      if ds.any (·.slot == i) then
-        ({ d with owed := d.owed.filter (· != k), skipped := d.skipped.filter (· != k),
-                  skippedAck := d.skippedAck.filter (· != k), midFan := d.midFan.filter (· != k) }).handled m (keysOfKind k)
-      else d) }
+      if ds.any (·.slot == i) then gotChanged m k d else d) }
   let fan := { fan with served := fan.served ++ ds.map (·.slot) }
   if done then
     { m with fans := fun k' => if k' = k then none else m.fans k',
